@@ -187,8 +187,8 @@ Proof.
   apply py_int_div_sound.
 Qed.
 
-(* the generated point_interval IS the model's, for every subpix, widths and disparity (no side condition) *)
-Theorem C02_gen_point_interval_eq_model : forall s nxl nxr D,
+(* the generated point_interval IS the model's, for every subpix >= 1, widths and disparity *)
+Theorem C02_gen_point_interval_eq_model : forall s nxl nxr D, 0 < s ->
   G.point_interval s nxl nxr D = point_interval s nxl nxr D.
 Proof. exact gen_point_interval_eq. Qed.
 
